@@ -148,7 +148,9 @@ Proof.
   unfold names_cids. cbn. apply elem_of_app.
   apply form_cids_subst_params in Hk as [Hk|Hk]; [|by right].
   destruct (fn_explicit fd).
-  - apply form_cids_subst in Hk as [Hk|Hk]; [|by left]. rewrite HF in Hk. by apply elem_of_nil in Hk.
+  - apply form_cids_subst in Hk as [Hk|Hk].
+    + rewrite HF in Hk. by apply elem_of_nil in Hk.
+    + destruct (is_self a0); [by apply elem_of_nil in Hk|by left].
   - rewrite HF in Hk. by apply elem_of_nil in Hk.
 Qed.
 
